@@ -38,6 +38,10 @@ package interpreter
 //@ ensures [str] isStr(value) ==> result1 == nil && result0 == str(value)
 //@ ensures [other] !isNum(value) && !isStr(value) && !isI64(value) && !isRunes(value) ==> result1 != nil
 
+//@ func stringify [C15]
+//@ ensures [nil] value == nil ==> result == "nil"
+//@ ensures [text] value != nil && !isRunes(value) ==> result == fmt.v(value)
+
 // ---- operators -------------------------------------------------------
 
 //@ func handleAddition [C02,C15,C16]
@@ -48,6 +52,7 @@ package interpreter
 //@ ensures [errs] errProto(false, utils.HadRuntimeError, old(stderrN), stderrN, stderr, operator.Line)
 
 //@ func handleArithmetic [C02]
+//@ reveal binOK unOK
 //@ requires [canon] canon(left) && canon(right)
 //@ requires [live] !utils.HadRuntimeError
 //@ requires [op] operator.Type == token.MINUS || operator.Type == token.STAR || operator.Type == token.SLASH
@@ -57,6 +62,7 @@ package interpreter
 //@ ensures [errs] errProto(false, utils.HadRuntimeError, old(stderrN), stderrN, stderr, operator.Line)
 
 //@ func handleEquality [C02]
+//@ reveal binOK unOK
 //@ requires [canon] canon(left) && canon(right)
 //@ requires [live] !utils.HadRuntimeError
 //@ requires [op] operator.Type == token.EQUAL_EQUAL || operator.Type == token.BANG_EQUAL
@@ -64,6 +70,7 @@ package interpreter
 //@ ensures [quiet] !utils.HadRuntimeError && stderrN == old(stderrN)
 
 //@ func handleComparison [C02]
+//@ reveal binOK unOK
 //@ requires [canon] canon(left) && canon(right)
 //@ requires [live] !utils.HadRuntimeError
 //@ requires [op] operator.Type == token.GREATER || operator.Type == token.GREATER_EQUAL || operator.Type == token.LESS || operator.Type == token.LESS_EQUAL
@@ -73,6 +80,7 @@ package interpreter
 //@ ensures [errs] errProto(false, utils.HadRuntimeError, old(stderrN), stderrN, stderr, operator.Line)
 
 //@ func handleBitwise [C02,C16]
+//@ reveal binOK unOK
 //@ requires [canon] canon(left) && canon(right)
 //@ requires [live] !utils.HadRuntimeError
 //@ requires [op] operator.Type == token.AND || operator.Type == token.OR || operator.Type == token.XOR || operator.Type == token.LEFT_SHIFT || operator.Type == token.RIGHT_SHIFT
@@ -86,6 +94,7 @@ package interpreter
 //@ ensures [errs] errProto(false, utils.HadRuntimeError, old(stderrN), stderrN, stderr, operator.Line)
 
 //@ func evaluateBinary [C02,C16,C06]
+//@ reveal binOK unOK
 //@ requires [canon] canon(left) && canon(right)
 //@ ensures [spec] !old(utils.HadRuntimeError) ==> binOK(operator.Type, left, right, result, utils.HadRuntimeError)
 //@ ensures [noval] utils.HadRuntimeError ==> result == nil
@@ -93,6 +102,7 @@ package interpreter
 //@ ensures [errs] errProto(old(utils.HadRuntimeError), utils.HadRuntimeError, old(stderrN), stderrN, stderr, operator.Line)
 
 //@ func evaluateUnary [C02,C16,C06,C14]
+//@ reveal binOK unOK
 //@ requires [canon] canon(right)
 //@ ensures [spec] !old(utils.HadRuntimeError) ==> unOK(operator.Type, right, result, utils.HadRuntimeError)
 //@ ensures [noval] utils.HadRuntimeError ==> result == nil
@@ -235,6 +245,97 @@ package interpreter
 //@ ensures [canon] canon(result0)
 //@ ensures [flagmono] old(utils.HadRuntimeError) ==> utils.HadRuntimeError
 //@ ensures [noparse] utils.HadError == old(utils.HadError)
+
+// The rules below are the operational meaning of each construct, written from the property statements (C03-C06, C11,
+// C12, C14, C15) over the ghost event log of the invocation: event k is the k-th eval / Callable.Call made by this
+// invocation itself, with the Borno-visible state before and after it (spec/60_log.smt2).  live(k): child k completed
+// without a signal and no error is pending; retSig(k, s): the construct returns child k's signal and does nothing
+// else; retPlain(k, s): it completes normally right after event k; with an error pending every behaviour that
+// satisfies E1-E3 is admitted.
+//@ let lit = expr.(*ast.Literal)
+//@ let id = expr.(*ast.Identifier)
+//@ let grp = expr.(*ast.Grouping)
+//@ let un = expr.(*ast.Unary)
+//@ let bin = expr.(*ast.Binary)
+//@ let lg = expr.(*ast.Logical)
+//@ let asg = expr.(*ast.AssignmentStmt)
+//@ let vs = expr.(*ast.VarStmt)
+//@ let es = expr.(*ast.ExpressionStatement)
+//@ let ps = expr.(*ast.PrintStatement)
+//@ let ifs = expr.(*ast.IfStmt)
+//@ let brk = expr.(*ast.BreakStmt)
+//@ let cnt = expr.(*ast.ContinueStmt)
+//@ let ret = expr.(*ast.Return)
+//@ let pa = expr.(*ast.PropertyAccess)
+//@ let pas = expr.(*ast.PropertyAssignment)
+//@ let aa = expr.(*ast.ArrayAccess)
+//@ let aas = expr.(*ast.ArrayAssignment)
+//@ let fs = expr.(*ast.FunctionStmt)
+//@ let blk = expr.(*ast.BlockStmt)
+//@ let wh = expr.(*ast.While)
+//@ let fr = expr.(*ast.ForStmt)
+//@ let cl = expr.(*ast.Call)
+//@ let al = expr.(*ast.ArrayLiteral)
+//@ let ol = expr.(*ast.ObjectLiteral)
+//@ let vl = expr.(*ast.VarListStmt)
+
+//@ ensures [Literal] case *ast.Literal: evN() == 0 && result0 == lit.Value && result1.Type == 0 && unchanged() [C16,C14]
+
+//@ ensures [Identifier.bound] case *ast.Identifier: old(envBound(env, id.Name.Lexeme)) ==> evN() == 0 && result0 == old(envLookup(env, id.Name.Lexeme)) && result1.Type == 0 && unchanged() [C03]
+//@ ensures [Identifier.unbound] case *ast.Identifier: !old(envBound(env, id.Name.Lexeme)) ==> evN() == 0 && result1.Type == 0 && utils.HadRuntimeError && stderrN == old(stderrN)+1 && diagLine(stderr[old(stderrN)]) == id.Line && stdoutN == old(stdoutN) && unchangedHeap() [C03,C06]
+
+//@ ensures [Grouping] case *ast.Grouping: evN() == 1 && evalAt(0, grp.Expression, env, isRepl) && entryIsPre(0) && stateIsPost(0) && result0 == evVal(0) && result1 == evSig(0) [C14,C18,C01]
+
+//@ ensures [Unary.order] case *ast.Unary: evN() >= 1 && evalAt(0, un.Right, env, isRepl) && entryIsPre(0) [C14]
+//@ ensures [Unary.signal] case *ast.Unary: sigT(0) != 0 ==> retSig(0, result1) [C04,C05]
+//@ ensures [Unary.value] case *ast.Unary: live(0) ==> evN() == 1 && result1.Type == 0 && unOK(un.Operator.Type, evVal(0), result0, utils.HadRuntimeError) && errProto(false, utils.HadRuntimeError, postErr(0), stderrN, stderr, un.Operator.Line) && stdoutN == postOut(0) && heapIsPost(0) [C02,C14,C06]
+
+//@ ensures [Binary.order] case *ast.Binary: evN() >= 1 && evalAt(0, bin.Left, env, isRepl) && entryIsPre(0) && (live(0) ==> evN() == 2 && evalAt(1, bin.Right, env, isRepl) && follows(1)) [C14]
+//@ ensures [Binary.signal] case *ast.Binary: (sigT(0) != 0 ==> retSig(0, result1)) && (live(0) && sigT(1) != 0 ==> retSig(1, result1)) [C04,C05]
+//@ ensures [Binary.value] case *ast.Binary: live(0) && live(1) ==> result1.Type == 0 && binOK(bin.Operator.Type, evVal(0), evVal(1), result0, utils.HadRuntimeError) && errProto(false, utils.HadRuntimeError, postErr(1), stderrN, stderr, bin.Operator.Line) && stdoutN == postOut(1) && heapIsPost(1) [C02,C14,C06]
+
+//@ ensures [Logical.order] case *ast.Logical: evN() >= 1 && evalAt(0, lg.Left, env, isRepl) && entryIsPre(0) [C14]
+//@ ensures [Logical.signal] case *ast.Logical: sigT(0) != 0 ==> retSig(0, result1) [C04,C05]
+//@ ensures [Logical.short] case *ast.Logical: live(0) && ((lg.Operator.Type == token.LOGICAL_OR) == truthySpec(evVal(0))) ==> retPlain(0, result1) && result0 == evVal(0) [C14]
+//@ ensures [Logical.right] case *ast.Logical: live(0) && ((lg.Operator.Type == token.LOGICAL_OR) != truthySpec(evVal(0))) ==> evN() == 2 && evalAt(1, lg.Right, env, isRepl) && follows(1) && stateIsPost(1) && result0 == evVal(1) && result1 == evSig(1) [C14]
+
+//@ ensures [Assignment.order] case *ast.AssignmentStmt: evN() >= 1 && evalAt(0, asg.Value, env, isRepl) && entryIsPre(0) [C14]
+//@ ensures [Assignment.signal] case *ast.AssignmentStmt: sigT(0) != 0 ==> retSig(0, result1) [C04,C05]
+//@ ensures [Assignment.store] case *ast.AssignmentStmt: live(0) && envBoundIn(postMD(0), env, asg.Name.Lexeme) ==> evN() == 1 && result1.Type == 0 && result0 == evVal(0) && curMV() == mvDefine(postMV(0), envTable(envOwnerIn(postMD(0), env, asg.Name.Lexeme)), asg.Name.Lexeme, evVal(0)) && curMD() == postMD(0) && curMC() == postMC(0) && curEV() == postEV(0) && stdoutN == postOut(0) && stderrN == postErr(0) && !utils.HadRuntimeError [C03,C14]
+//@ ensures [Assignment.undefined] case *ast.AssignmentStmt: live(0) && !envBoundIn(postMD(0), env, asg.Name.Lexeme) ==> evN() == 1 && result1.Type == 0 && errAfter(0, asg.Name.Line) [C03,C06]
+
+//@ ensures [Var.order] case *ast.VarStmt: (vs.Initializer == nil ==> evN() == 0) && (vs.Initializer != nil ==> evN() >= 1 && evalAt(0, vs.Initializer, env, isRepl) && entryIsPre(0)) [C14,C03]
+//@ ensures [Var.signal] case *ast.VarStmt: vs.Initializer != nil && sigT(0) != 0 ==> retSig(0, result1) [C04,C05]
+//@ ensures [Var.declare] case *ast.VarStmt: vs.Initializer != nil && live(0) && !envHereIn(postMD(0), env, vs.Name.Lexeme) ==> evN() == 1 && result1.Type == 0 && result0 == nil && curMD() == mdDefine(postMD(0), envTable(env), vs.Name.Lexeme) && curMV() == mvDefine(postMV(0), envTable(env), vs.Name.Lexeme, evVal(0)) && curMC() == mcDefine(postMC(0), postMD(0), envTable(env), vs.Name.Lexeme) && curEV() == postEV(0) && stdoutN == postOut(0) && stderrN == postErr(0) && !utils.HadRuntimeError [C03]
+//@ ensures [Var.redeclare] case *ast.VarStmt: vs.Initializer != nil && live(0) && envHereIn(postMD(0), env, vs.Name.Lexeme) ==> evN() == 1 && result1.Type == 0 && errAfter(0, vs.Line) [C03,C06]
+//@ ensures [Var.bare] case *ast.VarStmt: vs.Initializer == nil && !old(envHere(env, vs.Name.Lexeme)) ==> result1.Type == 0 && result0 == nil && curMD() == mdDefine(old(curMD()), envTable(env), vs.Name.Lexeme) && curMV() == mvDefine(old(curMV()), envTable(env), vs.Name.Lexeme, nil) && curEV() == old(curEV()) && stdoutN == old(stdoutN) && stderrN == old(stderrN) && utils.HadRuntimeError == old(utils.HadRuntimeError) [C03]
+//@ ensures [Var.bareredeclare] case *ast.VarStmt: vs.Initializer == nil && old(envHere(env, vs.Name.Lexeme)) ==> result1.Type == 0 && utils.HadRuntimeError && stderrN == old(stderrN)+1 && diagLine(stderr[old(stderrN)]) == vs.Line && stdoutN == old(stdoutN) && unchangedHeap() [C03,C06]
+
+//@ ensures [ExprStmt.order] case *ast.ExpressionStatement: evN() == 1 && evalAt(0, es.Expression, env, isRepl) && entryIsPre(0) && heapIsPost(0) && stderrN == postErr(0) && utils.HadRuntimeError == postFlag(0) [C14]
+//@ ensures [ExprStmt.signal] case *ast.ExpressionStatement: sigT(0) != 0 ==> retSig(0, result1) [C04,C05]
+//@ ensures [ExprStmt.value] case *ast.ExpressionStatement: sigT(0) == 0 ==> result1.Type == 0 && result0 == evVal(0) [C20]
+//@ ensures [ExprStmt.echo] case *ast.ExpressionStatement: sigT(0) == 0 && isRepl && !postFlag(0) ==> stdoutN == postOut(0)+1 && stdout[postOut(0)] == str.cat(ite(evVal(0) == nil, "nil", fmt.v(evVal(0))), "\n") [C20]
+//@ ensures [ExprStmt.silent] case *ast.ExpressionStatement: sigT(0) == 0 && (!isRepl || postFlag(0)) ==> stdoutN == postOut(0) [C19,C06]
+
+//@ ensures [Print.order] case *ast.PrintStatement: evN() == 1 && evalAt(0, ps.Expression, env, isRepl) && entryIsPre(0) [C14,C15]
+//@ ensures [Print.signal] case *ast.PrintStatement: sigT(0) != 0 ==> retSig(0, result1) [C04,C05]
+//@ ensures [Print.out] case *ast.PrintStatement: live(0) ==> result1.Type == 0 && outAfter(0, str.cat(ext.nfc(ite(evVal(0) == nil, "nil", fmt.v(evVal(0)))), "\n")) [C15]
+//@ ensures [Print.inert] case *ast.PrintStatement: sigT(0) == 0 && postFlag(0) ==> stateIsPost(0) [C06]
+
+//@ ensures [If.order] case *ast.IfStmt: evN() >= 1 && evalAt(0, ifs.Condition, env, isRepl) && entryIsPre(0) [C05,C14]
+//@ ensures [If.signal] case *ast.IfStmt: sigT(0) != 0 ==> retSig(0, result1) [C04,C05]
+//@ ensures [If.then] case *ast.IfStmt: live(0) && truthySpec(evVal(0)) ==> evN() == 2 && evalAt(1, ifs.ThenBranch, env, isRepl) && follows(1) && stateIsPost(1) && (sigT(1) != 0 ==> result1 == evSig(1)) && (sigT(1) == 0 ==> result1.Type == 0) [C05,C04]
+//@ ensures [If.else] case *ast.IfStmt: live(0) && !truthySpec(evVal(0)) && ifs.ElseBranch != nil ==> evN() == 2 && evalAt(1, ifs.ElseBranch, env, isRepl) && follows(1) && stateIsPost(1) && (sigT(1) != 0 ==> result1 == evSig(1)) && (sigT(1) == 0 ==> result1.Type == 0) [C05,C04]
+//@ ensures [If.none] case *ast.IfStmt: live(0) && !truthySpec(evVal(0)) && ifs.ElseBranch == nil ==> retPlain(0, result1) [C05]
+
+//@ ensures [Break] case *ast.BreakStmt: evN() == 0 && result1.Type == 1 && result1.LineNumber == brk.Line && unchanged() [C05,C06]
+//@ ensures [Continue] case *ast.ContinueStmt: evN() == 0 && result1.Type == 2 && result1.LineNumber == cnt.Line && unchanged() [C05,C06]
+
+//@ ensures [Return.bare] case *ast.Return: ret.Value == nil ==> evN() == 0 && result1.Type == 3 && result1.Value == nil && result1.LineNumber == ret.Keyword.Line && unchanged() [C04,C06]
+//@ ensures [Return.order] case *ast.Return: ret.Value != nil ==> evN() == 1 && evalAt(0, ret.Value, env, isRepl) && entryIsPre(0) && stateIsPost(0) [C04,C14]
+//@ ensures [Return.signal] case *ast.Return: ret.Value != nil && sigT(0) != 0 ==> result1 == evSig(0) [C04]
+//@ ensures [Return.value] case *ast.Return: ret.Value != nil && sigT(0) == 0 ==> result1.Type == 3 && result1.Value == evVal(0) && result1.LineNumber == ret.Keyword.Line [C04,C06]
+
 //@ loop 1:
 //@   invariant [flagmono] old(utils.HadRuntimeError) ==> utils.HadRuntimeError
 //@ loop 2:
